@@ -119,6 +119,7 @@ type gcase struct {
 	lead                     int  // 0: single path; 1: after a path without origin; 2: after a path with origin o2
 	split                    int  // number of leaf elements carried in the notification prefix
 	originInPath             bool // the leaf's origin travels in the update path, the prefix has none
+	deprPrefix               bool // the subscription prefix carries its elements in the deprecated string-list encoding
 }
 
 func mkp(origin string, elems []string) *pb.Path {
@@ -148,14 +149,17 @@ func specContainGNMI() seqmc.Spec {
 											if split > 0 && lead > 0 {
 												continue
 											}
-											cases = append(cases, gcase{tg, po, so, pe, se, lt, lo, le, lead, split, false})
+											cases = append(cases, gcase{tg, po, so, pe, se, lt, lo, le, lead, split, false, false})
+											if len(pe) > 0 && split == 0 {
+												cases = append(cases, gcase{tg, po, so, pe, se, lt, lo, le, lead, split, false, true})
+											}
 										}
 										// the same leaf announced with its origin carried by the
 										// UPDATE PATH under an origin-less prefix: wherever the cache
 										// files that (it indexes by the prefix only), the trie offers
 										// the update where a query finds the leaf
 										if lo != "" && lead == 0 {
-											cases = append(cases, gcase{tg, po, so, pe, se, lt, lo, le, lead, 0, true})
+											cases = append(cases, gcase{tg, po, so, pe, se, lt, lo, le, lead, 0, true, false})
 										}
 									}
 								}
@@ -184,6 +188,12 @@ func specContainGNMI() seqmc.Spec {
 		}
 		prefix := mkp(g.pOrigin, g.pElems)
 		prefix.Target = g.target
+		if g.deprPrefix {
+			for _, e := range prefix.Elem {
+				prefix.Element = append(prefix.Element, e.Name)
+			}
+			prefix.Elem = nil
+		}
 		sl := &pb.SubscriptionList{Prefix: prefix}
 		// the path under test comes after another path of the same list
 		// (nothing registered for one path may leak into the next)
